@@ -1,4 +1,6 @@
 import ArtapModel.Model.Runs
+import ArtapModel.Props.C02
+import ArtapModel.Props.C03
 /-!
 # C09 — generation bookkeeping, evaluation budget, ε-MOEA acceptance
 
@@ -7,7 +9,7 @@ Property theorems for `Model/Runs.lean` (core Lean only).  The elitism clause is
 NSGA-II runs by harness/c09.py.
 -/
 namespace Artap.C09
-open Artap.Runs
+open Artap Artap.Runs
 
 variable {D : Type}
 
@@ -314,6 +316,29 @@ theorem steady_budget_and_generations (N G : Nat) :
         simp [b, this]
       · have : ¬ t ≤ G := by omega
         simp [b, this]
+
+/-! ### generational elitism: composition of C02 (true Pareto rank) and C03 (rank-first truncation) -/
+
+/-- **NSGA-II elitism.**  Let `costs` be the signed costs (with markers) of the merged population
+of one generation step (offspring and copies of the parents), `pop` the same members as seen by
+the truncation (design, front number, crowding distance) with the front numbers that
+non-dominated sorting computes (`rankOf`, C02).  Whatever order `set()` produces and whatever `k`
+is: no survivor is dominated by a member whose design has no surviving copy – in particular by
+no dropped design of the previous generation. -/
+theorem nsga2_elitism {α : Type} [LinearOrder α] (costs : List (List α × Int)) (hs : SameLen costs)
+    (pop : List Ind) (hlen : pop.length = costs.length)
+    (hfront : ∀ i (hi : i < pop.length), rankOf costs i = some (pop[i].front))
+    (hc : RankConsistent pop) (k : Nat) (o r : List Nat) (h : truncate pop k o = some r)
+    (i j : Nat) (hi : i ∈ r) (hip : i < pop.length) (hj : j < pop.length)
+    (hdisc : DesignDiscarded pop r pop[j]) : ¬ Dom costs j i := by
+  intro hd
+  have hx : Kept pop r pop[i] := ⟨i, hi, List.getElem?_eq_getElem hip⟩
+  have hle := C03.truncate_rank_first pop k o r h hc pop[i] pop[j] hx hdisc
+  obtain ⟨rj, ri, ej, ei, hlt⟩ := C02.rank_lt_of_dom costs (rankOf costs) (C02.fnds_rank costs hs) j i hd
+  rw [hfront j hj] at ej
+  rw [hfront i hip] at ei
+  cases ej; cases ei
+  omega
 
 /-! ## Non-vacuity -/
 example : generate (fun (a b : Nat) => a == b) 3 [(1, 1), (1, 2), (3, 4)] [] = some [1, 2, 3] := by decide
